@@ -233,15 +233,20 @@ def c07(work, tier, seed):
     scripts = []
     hosts = [["H1", ":", "PA"], ["H1", ":", "PB"], ["H1", ":", "PE"]]
 
-    def mk(schedule, ntun, idx, big=False, contend=None):
-        token = idx % 3 != 2
+    def mk(schedule, ntun, idx, big=False, contend=None, samelogin=False):
+        token = idx % 3 != 2 or samelogin
         cfg = {"tokenAuth": token, "smartCard": False, "auth": "openid" if token else "ntlm", "sel": "unsigned" if token else "roundrobin", "hosts": hosts, "verifyIp": True, "idle": 0}
         tunnels = []
         for k in range(ntun):
             variant = ["ok", "ok", "cross-host", "ok", "bad-cookie", "out-of-order"][(idx + k * 5) % 6] if not big else "ok"
+            if samelogin and k < 2:
+                variant = "ok"
             user = ("user%d" % (k + 1)) if token else ["nuser1", "nuser2"][k % 2]
             tun = {"user": user, "hostName": ["H1"], "hostPort": ["PA", "PB", "PE"][k % 3], "entry": hosts[k % 3],
                    "mintXFF": "10.0.0.%d" % (k + 1), "useXFF": "10.0.0.%d" % (k + 1)}
+            if samelogin and k < 2:
+                # the first two tunnels present files that one logged-in session downloaded for two different hosts
+                tun = dict(tun, user="user1", loginGroup="g%d" % idx, mintXFF="10.0.0.1", useXFF="10.0.0.1")
             tunnels.append({"transport": ["ws", "legacy"][(idx + k) % 2], "tun": tun, "steps": tunnel_steps(k, token, variant)})
         sc = {"id": "m%05d" % len(scripts), "origin": "interleave:%d" % ntun, "cfg": cfg, "tunnels": tunnels, "schedule": schedule}
         if contend:
@@ -252,6 +257,10 @@ def c07(work, tier, seed):
         mk(p, 2, i)
     for i, p in enumerate(il3):
         mk(p, 3, i)
+    # two tunnels that present connection files which ONE logged-in session downloaded for two different hosts (plus a
+    # third tunnel of somebody else): each is bound to the host of its own token
+    for i, p in enumerate(il2[:8] + il3[:8] if tier == "quick" else il2[:60] + il3[:60]):
+        mk(p, 2 + (max(p) == 2), 1000 + i, samelogin=True)
     # many tunnels at once, seeded random schedules
     for i in range(6 if tier == "quick" else 40):
         n = [8, 16, 32, 64][i % 4] if tier == "thorough" else [8, 16][i % 2]
